@@ -25,6 +25,8 @@ DIRECTED = [
      [{'all': False, 'check': 'CheckNonceMSB', 'batch': ['s1', 's2', 's3']},
       {'all': True, 'check': 'ALL', 'batch': ['s5', 's1', 's2', 's3', 's4']},
       {'all': False, 'check': 'CheckNonceCommonPrefix', 'batch': ['s1', 's3', 's2', 's4']}]),
+    ('ecdsa', 'behind-u2f-issuer', {'s1': 'u2fA', 's2': 'healthyA', 's3': 'healthyk1', 's4': 'healthyB'},
+     [{'all': False, 'check': 'CheckCr50U2f', 'batch': ['s1', 's2', 's3', 's4']}, {'all': True, 'check': 'ALL', 'batch': ['s3', 's1', 's2']}]),
     ('ecdsa', 'mixed', {'s1': 'healthyA', 's2': 'msbA', 's3': 'healthy384', 's4': 'healthyB'},
      [{'all': True, 'check': 'ALL', 'batch': ['s1', 's2', 's3', 's4']}]),
 ]
